@@ -267,7 +267,7 @@ def win_quote_table(ctx):
         repl = e.arg(0) if isinstance(const_eval(
             repo, e.fn.module, e.call.func.value), RegexConst) else e.arg(1)
         ok = ok and has_call(repl, 'mul2') and has_const(
-            repl, '\\') and any('group(' in a for a in repl)
+            repl, '\\') and any('group(' in a or 'groups(' in a for a in repl)
     ctx.ob(R, 'inner_quote_info|backslashes-doubled', ok, f.node,
            'backslashes before a quote / at the end are not doubled and the '
            'quote escaped')
